@@ -1057,6 +1057,7 @@ func c09PullCase(t *testing.T, out *zzverif.Out, rng *zzverif.Rng, dir string, t
 		var steps []string
 		var counts []string
 		var result error
+		linkedEarly := "" // L2: the link of the name changed while chunk requests were still outstanding
 		synctest.Test(t, func(t *testing.T) {
 			ctx, cancel := context.WithCancel(context.Background())
 			defer cancel()
@@ -1074,6 +1075,9 @@ func c09PullCase(t *testing.T, out *zzverif.Out, rng *zzverif.Rng, dir string, t
 					t.Fatalf("c09: client neither finished nor waiting (case %s)", tag)
 				}
 				counts = append(counts, strconv.Itoa(len(w)))
+				if cur := c09ReadLink(dir, model); !bytes.Equal(cur, linkBefore) && linkedEarly == "" {
+					linkedEarly = fmt.Sprintf("attempt=%d: the name's link changed while %d chunk request(s) were still waiting for the registry (before step %d)", at, len(w), len(steps))
+				}
 				if os.Getenv("VERIF_DEBUG") != "" {
 					var ds []string
 					for _, p := range w {
@@ -1222,6 +1226,15 @@ func c09PullCase(t *testing.T, out *zzverif.Out, rng *zzverif.Rng, dir string, t
 			}
 		}
 		// ---- L2: the property on the real cache, independent of the model
+		if linkedEarly != "" {
+			// "the name is linked only after that": at every quiescent point of the attempt the link is still the old one
+			l2s = append(l2s, [2]string{"pull-linked-before-layers-done", linkedEarly})
+		}
+		if result == nil && manKind == "ok" && !bytes.Equal(linkAfter, m.data) &&
+			!(linkShortcut && linkBefore != nil && len(linkBefore) == len(m.data)) {
+			// success means the name is linked to THIS manifest (F8's same-length shortcut aside)
+			l2s = append(l2s, [2]string{"pull-success-not-linked-to-this-manifest", fmt.Sprintf("attempt=%d result=ok linked=%v", at, linkAfter != nil)})
+		}
 		if result != nil && !bytes.Equal(linkBefore, linkAfter) {
 			l2s = append(l2s, [2]string{"failed-pull-changed-link", fmt.Sprintf("attempt=%d result=%s", at, cls)})
 		}
